@@ -446,6 +446,9 @@ class Evaluator:
             return [gamma(v.pred, x, y) for x, y in zip(a, b)]
         if isinstance(v, Num) and v.length is not None:
             return [v.at(C(i)) for i in range(n)]
+        if isinstance(v, Term) and v.kind in ('ndarray', 'list'):
+            nv = term_as_num(v, True, v.kind)
+            return [nv.at(C(i)) for i in range(n)]
         return [Term('item', (v, Const(i)), kind='unknown') for i in range(n)]
 
     # ---- control flow
@@ -1236,6 +1239,8 @@ class Evaluator:
             x, y = na.const(), nb.const()
             t = {ast.Eq: x == y, ast.NotEq: x != y, ast.Lt: x < y, ast.LtE: x <= y, ast.Gt: x > y, ast.GtE: x >= y}
             return Const(t[type(op)])
+        if length is None and na.length is None and nb.length is None and na.r == nb.r and isinstance(op, (ast.Eq, ast.NotEq, ast.Lt, ast.Gt, ast.LtE, ast.GtE)):
+            return Const(isinstance(op, (ast.Eq, ast.LtE, ast.GtE)))
         # canonical forms:  a < b  ==  b > a ;   keep (op, lhs, rhs) with op in {<, <=, ==}
         if isinstance(op, ast.Gt):
             p = P('<', nb, na)
@@ -1494,6 +1499,9 @@ class Evaluator:
             meth = name.split('.', 1)[1]
             recv = fn.self_val
             h = METHOD_HANDLERS.get(meth)
+            if h is None and meth in MIRRORED_METHODS and ((isinstance(recv, Num) and recv.length is not None) or getattr(recv, 'kind', '') in ('ndarray', 'ndarray2d')):
+                # a.m(...) of an array is numpy.m(a, ...): one canonical form for both spellings
+                return self.call_lib('numpy.' + meth, [recv] + list(pos), kw, star_kw, st, node)
             if h is not None:
                 r = h(self, recv, pos, kw, st, node)
                 if r is not None:
@@ -1600,6 +1608,8 @@ BUILTINS = {'setattr', 'slice', 'len', 'int', 'float', 'abs', 'min', 'max', 'ran
             'AttributeError', 'Exception', 'TimeoutError', 'RuntimeError', 'NotImplementedError', 'StopIteration', 'callable',
             'divmod', 'pow', 'id', 'repr', 'format'}
 
+MIRRORED_METHODS = {'repeat', 'cumsum', 'clip', 'argmin', 'argmax', 'searchsorted', 'nonzero', 'dot', 'squeeze', 'var', 'any', 'all', 'prod', 'cumprod',
+                    'argsort', 'diagonal', 'trace', 'ptp'}
 MUTATING_METHODS = {'append', 'extend', 'insert', 'sort', 'fill', 'put', 'resize', 'pop', 'remove', 'clear', 'reverse',
                     'update', 'setdefault', 'itemset', 'partition', 'byteswap', 'setflags'}
 NDARRAY_METHODS = {'sum', 'copy', 'take', 'min', 'max', 'repeat', 'astype', 'flatten', 'reshape', 'tolist', 'item', 'mean',
@@ -1735,6 +1745,8 @@ def _cat_part(ev, v):
     """normalise one operand of a 1-D concatenation: a one-element list display is its element"""
     if isinstance(v, Tup) and len(v.items) == 1 and isinstance(v.items[0], Num) and v.items[0].length is None:
         return v.items[0]
+    if isinstance(v, Num) and v.length is not None and v.length == C(1):
+        return v.at(C(0))
     return v
 
 
@@ -1992,6 +2004,17 @@ def b_iter(ev, pos, kw, st, node):
     return Term('iter', pos, uid=fresh_serial())
 
 
+def b_dict(ev, pos, kw, st, node):
+    """dict(k=v, ...) / dict(mapping, k=v): a literal keyword dictionary"""
+    if not pos:
+        return Kw(dict(kw))
+    if len(pos) == 1 and isinstance(pos[0], Kw):
+        items = dict(pos[0].items)
+        items.update(kw)
+        return Kw(items, pos[0].rest)
+    return None
+
+
 def b_bool(ev, pos, kw, st, node):
     return ev.truth(pos[0], st, node) if pos else FALSE
 
@@ -2015,7 +2038,7 @@ def b_exc(name):
 
 BUILTIN_HANDLERS = {'setattr': b_setattr, 'slice': b_slice, 'len': b_len, 'int': b_int, 'float': b_float, 'abs': b_abs, 'min': _minmax('min'), 'max': _minmax('max'),
                     'range': b_range, 'zip': b_zip, 'enumerate': b_enumerate, 'isinstance': b_isinstance,
-                    'getattr': b_getattr, 'next': b_next, 'iter': b_iter, 'bool': b_bool, 'list': b_list}
+                    'getattr': b_getattr, 'next': b_next, 'iter': b_iter, 'bool': b_bool, 'list': b_list, 'dict': b_dict}
 for _n in ('ValueError', 'IndexError', 'OSError', 'TypeError', 'KeyError', 'AttributeError', 'Exception', 'RuntimeError'):
     BUILTIN_HANDLERS[_n] = b_exc(_n)
 
@@ -2048,7 +2071,14 @@ def m_astype(ev, recv, pos, kw, st, node):
 
 
 def m_flatten(ev, recv, pos, kw, st, node):
-    return recv if isinstance(recv, Num) and recv.length is not None else None
+    if isinstance(recv, Num) and recv.length is not None:
+        return recv
+    order = kw.get('order', pos[0] if pos else None)
+    if isinstance(order, Const) and order.v == 'F' and isinstance(recv, Term):
+        # column-major flattening is the row-major flattening of the transpose
+        inner = recv.args[0] if recv.head == 'T' else Term('T', (recv,), kind=recv.kind)
+        return Term('method:flatten', (inner,), kind='ndarray', node=node)
+    return None
 
 
 def m_item(ev, recv, pos, kw, st, node):
